@@ -7,8 +7,10 @@
 From Coq Require Import ZArith Bool List Lia.
 From MomoCommon Require Import GenPrelude.
 From C15 Require Import Gen_VersionKeeper Gen_ArrayIndexIterator Gen_ArrayShifter Gen_ArrayGuards Gen_MultiMapGuards
-  Gen_SelectionGuards Gen_TableGuards Gen_TreeIterator Gen_SegmentedArrayGuards Gen_DataRawIterator Version VersionProofs Arr.
+  Gen_SelectionGuards Gen_TableGuards Gen_TreeIterator Gen_SegmentedArrayGuards Gen_DataRawIterator Gen_MultiHashIterator Version VersionProofs Arr.
 Local Open Scope Z_scope.
+(* robustness: a regenerated term that makes a tactic run away fails the proof (prove BROKEN) instead of hanging the build *)
+Set Default Timeout 300.
 
 Definition U64 (x : Z) : Prop := 0 <= x < 2 ^ 64.
 Lemma wrapU_sub_small c i : U64 c -> 0 <= i <= c -> wrapU 64 (c - i) = c - i.
@@ -260,4 +262,89 @@ Lemma rawit_deref_exact (count_of : Z -> Z) idx raws :
 Proof.
   unfold raw_arrow, Gen_DataRawIterator.checkMode. cbv zeta. change (negb (2 =? 1)) with true. change (2 =? 2) with true. cbn [orb].
   destruct (raws =? 0), (idx <? count_of raws); reflexivity.
+Qed.
+
+(* ---------- DataRawMultiHashIterator::operator+= / operator-> (DataIndexes.h: the iterators of FindByMultiHash bounds) ----------
+   whole bodies (the VersionKeeper::Check() call in front is the function proved above).  mRaw0 = first raw (null for empty bounds),
+   mRawBegin = the value array of the remaining raws (null when the bounds hold at most one raw), mRawIndex : ptrdiff_t.
+   mRawCount = the count of the bounds (added by the fix of the defect reported in grow round 4). *)
+Lemma wrapS_add_signed i d :
+  0 <= i < 2 ^ 63 -> - 2 ^ 63 <= d < 2 ^ 63 ->
+  let r := wrapS 64 (wrapU 64 (wrapU 64 i + wrapU 64 d)) in
+  (0 <= i + d < 2 ^ 63 -> r = i + d) /\ (~ 0 <= i + d < 2 ^ 63 -> r < 0).
+Proof.
+  intros Hi Hd. cbv zeta. rewrite (wrapU_small 64 i) by lia. rewrite (wrapU_add_signed i d Hi Hd).
+  unfold wrapS. cbv zeta. change (64 - 1) with 63.
+  destruct (Z.leb_spec 0 (i + d)) as [P|P].
+  - rewrite (Z.mod_small (i + d) (2 ^ 64)) by lia. destruct (Z.ltb_spec (i + d) (2 ^ 63)); split; intros; lia.
+  - rewrite (Z.mod_small (i + d + 2 ^ 64) (2 ^ 64)) by lia. destruct (Z.ltb_spec (i + d + 2 ^ 64) (2 ^ 63)); split; intros; lia.
+Qed.
+Definition mh_accepts (r0 rb i cnt d : Z) : bool :=
+  negb (r0 =? 0) && (0 <=? i + d) && (i + d <? 2 ^ 63) && (negb (rb =? 0) || (i + d <=? 1)) && (i + d <=? cnt).
+Lemma mh_advance_exact r0 rb i cnt d :
+  0 <= i < 2 ^ 63 -> - 2 ^ 63 <= d < 2 ^ 63 ->
+  mh_add_assign r0 rb i cnt d =
+    if d =? 0 then Ok (tt, i) else if mh_accepts r0 rb i cnt d then Ok (tt, i + d) else Exn.
+Proof.
+  intros Hi Hd. unfold mh_add_assign, mh_accepts, Gen_MultiHashIterator.checkMode. cbv zeta.
+  change (negb (2 =? 1)) with true. change (2 =? 2) with true. cbn [orb].
+  destruct (d =? 0); cbn [negb]; [reflexivity|].
+  destruct (r0 =? 0); cbn [negb andb]; [reflexivity|].
+  destruct (wrapS_add_signed i d Hi Hd) as [A B]. cbv zeta in A, B.
+  destruct (Z.leb_spec 0 (i + d)) as [P|P]; destruct (Z.ltb_spec (i + d) (2 ^ 63)) as [Q|Q]; cbn [andb].
+  - rewrite (A (conj P Q)). destruct (Z.geb_spec (i + d) 0); [|lia]. cbn [negb].
+    rewrite (wrapU_small 64 (i + d)) by lia.
+    destruct (negb (rb =? 0) || (i + d <=? 1)); cbn [negb andb]; [|reflexivity].
+    destruct (i + d <=? cnt); reflexivity.
+  - assert (N : wrapS 64 (wrapU 64 (wrapU 64 i + wrapU 64 d)) < 0) by (apply B; lia).
+    destruct (Z.geb_spec (wrapS 64 (wrapU 64 (wrapU 64 i + wrapU 64 d))) 0); [lia|reflexivity].
+  - assert (N : wrapS 64 (wrapU 64 (wrapU 64 i + wrapU 64 d)) < 0) by (apply B; lia).
+    destruct (Z.geb_spec (wrapS 64 (wrapU 64 (wrapU 64 i + wrapU 64 d))) 0); [lia|reflexivity].
+  - lia.
+Qed.
+(* the accepted set in one line: a real move is accepted EXACTLY when the iterator is attached and the new index is inside [0, count]
+   (for bounds as DataRawMultiHashBounds builds them: no value array iff count <= 1) *)
+Lemma mh_advance_within_count r0 rb i cnt d :
+  0 <= i <= cnt -> - 2 ^ 63 <= d < 2 ^ 63 -> d <> 0 -> 0 <= cnt < 2 ^ 63 -> (rb = 0 <-> cnt <= 1) -> (r0 = 0 <-> cnt = 0) ->
+  mh_add_assign r0 rb i cnt d = if (0 <=? i + d) && (i + d <=? cnt) then Ok (tt, i + d) else Exn.
+Proof.
+  intros Hi Hd Hn Hc Hb H0. rewrite (mh_advance_exact r0 rb i cnt d) by lia. unfold mh_accepts.
+  destruct (Z.eqb_spec d 0); [lia|].
+  destruct (Z.eqb_spec r0 0) as [E|E]; destruct (Z.eqb_spec rb 0) as [F|F];
+    destruct (Z.leb_spec 0 (i + d)); destruct (Z.ltb_spec (i + d) (2 ^ 63)); destruct (Z.leb_spec (i + d) 1);
+    destruct (Z.leb_spec (i + d) cnt); cbn [negb andb orb]; try reflexivity; exfalso; lia.
+Qed.
+(* frame: the only write is the new index; it stays inside [0, count]; a detached iterator moves nowhere *)
+Lemma mh_advance_frame r0 rb i cnt d j :
+  0 <= i < 2 ^ 63 -> - 2 ^ 63 <= d < 2 ^ 63 -> mh_add_assign r0 rb i cnt d = Ok (tt, j) ->
+  j = i + d /\ 0 <= j /\ (d <> 0 -> r0 <> 0 /\ j <= cnt) /\ (rb = 0 -> d <> 0 -> j <= 1).
+Proof.
+  intros Hi Hd. rewrite (mh_advance_exact r0 rb i cnt d Hi Hd). unfold mh_accepts.
+  destruct (Z.eqb_spec d 0) as [E|E]; [intro EQ; inversion EQ; subst; repeat split; try lia; intros; congruence|].
+  destruct (Z.eqb_spec r0 0); cbn [negb andb]; [discriminate|].
+  destruct (Z.leb_spec 0 (i + d)); cbn [andb]; [|discriminate].
+  destruct (Z.ltb_spec (i + d) (2 ^ 63)); cbn [andb]; [|discriminate].
+  destruct (Z.leb_spec (i + d) cnt); [|rewrite Bool.andb_false_r; discriminate]. rewrite Bool.andb_true_r.
+  destruct (Z.eqb_spec rb 0); cbn [negb orb].
+  - destruct (Z.leb_spec (i + d) 1); [|discriminate]. intro EQ; inversion EQ; subst. repeat split; try lia; intros; congruence.
+  - intro EQ; inversion EQ; subst. repeat split; try lia; intros; congruence.
+Qed.
+Lemma mh_deref_exact r0 rb i cnt :
+  0 <= i < 2 ^ 63 ->
+  mh_arrow r0 rb i cnt = if (i <? cnt) && (if i >? 0 then negb (rb =? 0) else negb (r0 =? 0)) then Ok tt else Exn.
+Proof.
+  intros Hi. unfold mh_arrow, Gen_MultiHashIterator.checkMode. change (negb (2 =? 1)) with true. change (2 =? 2) with true. cbn [orb].
+  rewrite (wrapU_small 64 i) by lia.
+  destruct (i <? cnt); cbn [negb andb]; [|reflexivity].
+  destruct (i >? 0); [destruct (rb =? 0)|destruct (r0 =? 0)]; reflexivity.
+Qed.
+(* the end iterator and every index past it are rejected by operator-> and cannot be produced by operator+= (the defect reported in
+   grow round 4: before the fix neither function looked at the count) *)
+Lemma mh_end_rejected r0 rb i cnt : 0 <= i < 2 ^ 63 -> cnt <= i -> mh_arrow r0 rb i cnt = Exn.
+Proof. intros Hi H. rewrite (mh_deref_exact r0 rb i cnt Hi). destruct (Z.ltb_spec i cnt); [lia|reflexivity]. Qed.
+Lemma mh_past_end_unreachable r0 rb i cnt d :
+  0 <= i < 2 ^ 63 -> - 2 ^ 63 <= d < 2 ^ 63 -> d <> 0 -> cnt < i + d -> mh_add_assign r0 rb i cnt d = Exn.
+Proof.
+  intros Hi Hd Hn H. rewrite (mh_advance_exact r0 rb i cnt d Hi Hd). unfold mh_accepts.
+  destruct (Z.eqb_spec d 0); [lia|]. destruct (Z.leb_spec (i + d) cnt); [lia|]. rewrite Bool.andb_false_r. reflexivity.
 Qed.
